@@ -148,6 +148,17 @@ func c19TwoLetterTail(parts []c19part) bool {
 	return n >= 2 && !parts[n-1].initial && parts[n-1].wordLen == 2 && parts[n-2].initial
 }
 
+// c19DigitTail: the identifier ends with an initialism that ends in a digit (UTF8) directly
+// after another initialism, so the all-caps run ends in a digit at end of string.
+func c19DigitTail(parts []c19part) bool {
+	n := len(parts)
+	if n < 2 || !parts[n-1].initial || !parts[n-2].initial {
+		return false
+	}
+	t := parts[n-1].text
+	return t[len(t)-1] >= '0' && t[len(t)-1] <= '9'
+}
+
 func c19goident(maxParts, maxWordLen int, initialisms []string) {
 	np := 1 + zzverif.Choose("nparts", maxParts)
 	parts := make([]c19part, np)
@@ -188,6 +199,8 @@ func c19goident(maxParts, maxWordLen int, initialisms []string) {
 		zzverif.AssertUnlessKnown(ok, "C19 DecodeGoCamelCase lost a word boundary", "c19-initialism-greedy", true)
 	case tail:
 		zzverif.AssertUnlessKnown(ok, "C19 DecodeGoCamelCase lost a word boundary", "c19-two-letter-tail", true)
+	case c19DigitTail(parts):
+		zzverif.AssertUnlessKnown(ok, "C19 DecodeGoCamelCase lost a word boundary", "c19-digit-tail", true)
 	default:
 		zzverif.Assert(ok, "C19 DecodeGoCamelCase lost a word boundary")
 	}
